@@ -68,6 +68,8 @@ def run(ctx) -> None:
     r01_3(ctx)
     r01_4(ctx)
     r01_5(ctx)
+    r01_6(ctx)
+    r01_7(ctx)
     ctx.floor("merge_cells", 6)
     ctx.floor("yield_sites", 25)
     ctx.floor("source_loops", 6)
@@ -75,15 +77,16 @@ def run(ctx) -> None:
 
 # --------------------------------------------------------------------------- R01.1
 class _HolderOps:
-    def __init__(self, outcome: str, reverse: bool):
+    def __init__(self, outcome: str, reverse: bool, roles: Optional[dict] = None):
         self.outcome = outcome  # key(A) vs key(B)
         self.reverse = reverse
+        self.roles = roles or {"flag": {"reverse"}, "key": {"head_key"}}
 
     def attr(self, value, name, node, env):
         if value in ("A", "B"):
-            if name == "reverse":
+            if name in self.roles["flag"]:
                 return self.reverse
-            if name in ("head_key",):
+            if name in self.roles["key"]:
                 return ("key", value)
             return ("field", value, name)
         return UNKNOWN
@@ -104,13 +107,144 @@ class _HolderOps:
         return UNKNOWN
 
 
+def _self_field(t: ast.AST, self_name: str) -> Optional[str]:
+    if isinstance(t, ast.Attribute) and isinstance(t.value, ast.Name) and t.value.id == self_name:
+        return t.attr
+    return None
+
+
+def holder_roles(ctx) -> dict:
+    """Which slots of the merge head holder play which part, read off the class itself (so
+    renaming a slot changes nothing): ``flag`` — set in __init__ from a bool parameter;
+    ``tail`` — the iterator whose __anext__ the pulling method awaits; ``head`` — receives the
+    pulled item; ``key`` — the other slot(s) the pulling method stores (the sort key)."""
+    cached = ctx.__dict__.get("_holder_roles")
+    if cached is not None:
+        return cached
+    info = ctx.pkg.cls("heapq._KeyIter")
+    roles = {"flag": set(), "tail": set(), "head": set(), "key": set(), "puller": None}
+    init = info.methods.get("__init__")
+    if init is not None:
+        me = init.param_names()[0]
+        bools = {p.arg for p in init.params() if p.annotation is not None and norm(p.annotation) == "bool"}
+        for st in own_nodes(init.node):
+            if isinstance(st, ast.Assign) and isinstance(st.value, ast.Name) and st.value.id in bools:
+                for t in st.targets:
+                    f = _self_field(t, me)
+                    if f:
+                        roles["flag"].add(f)
+    for m in info.methods.values():
+        if m.kind != "coroutine" or "classmethod" in m.decorators or "staticmethod" in m.decorators or not m.param_names():
+            continue
+        me = m.param_names()[0]
+        pulls = [x for x in own_nodes(m.node) if isinstance(x, ast.Await) and isinstance(x.value, ast.Call)
+                 and isinstance(x.value.func, ast.Attribute) and x.value.func.attr == "__anext__"
+                 and _self_field(x.value.func.value, me)]
+        if not pulls:
+            continue
+        roles["puller"] = m
+        roles["tail"].add(_self_field(pulls[0].value.func.value, me))
+        cfg = cfg_of(m)
+        locals_of_pull = set()
+        for n in cfg.nodes:
+            if n.kind == "store" and not n.tag and n.info.get("value") is pulls[0]:
+                for t in n.info["targets"]:
+                    if isinstance(t, ast.Name):
+                        locals_of_pull.add(t.id)
+                    f = _self_field(t, me)
+                    if f:
+                        roles["head"].add(f)
+        for n in cfg.nodes:
+            if n.kind == "store" and not n.tag and n.info.get("value") is not pulls[0]:
+                v = n.info.get("value")
+                for t in n.info["targets"]:
+                    f = _self_field(t, me)
+                    if not f:
+                        continue
+                    if isinstance(v, ast.Name) and v.id in locals_of_pull:
+                        roles["head"].add(f)
+                    else:
+                        roles["key"].add(f)
+        roles["pull_locals"] = locals_of_pull
+        roles["pull"] = pulls[0]
+    if not roles["flag"] or not roles["key"] or roles["puller"] is None:
+        raise AnalysisError("heapq._KeyIter: cannot identify the direction flag / sort key slots / pulling method "
+                            f"(anchor moved): {roles}")
+    ctx.__dict__["_holder_roles"] = roles
+    return roles
+
+
+def r01_6(ctx) -> None:
+    """merge compares the key of the *current* head: whenever the holder takes a new head,
+    its sort key is recomputed from that head before the holder is used again."""
+    from asl.flow import find_path, pretty_path
+    ctx.rule("R01.6", "merge: every newly pulled head gets its sort key recomputed (from that head) before the holder is reused")
+    roles = holder_roles(ctx)
+    m = roles["puller"]
+    me = m.param_names()[0]
+    cfg = cfg_of(m)
+    pull_nodes = [n for n in cfg.nodes if n.kind == "await" and n.ast is roles["pull"] and not n.tag]
+    if not pull_nodes:
+        raise AnalysisError("heapq._KeyIter: the pull of the next head is not in the CFG")
+
+    def key_store(n):
+        return n.kind == "store" and any(_self_field(t, me) in roles["key"] for t in n.info.get("targets", []))
+
+    for pn in pull_nodes:
+        starts = pn.nsucc("n")
+        for s0 in starts:
+            if key_store(s0):
+                continue
+            path = find_path(s0, lambda n: n.kind == "exit", avoid=key_store,
+                             edge_ok=lambda a, lab, b: lab not in ("e", "h", "p"))
+            ctx.check(path is None, "R01.6", m, pn,
+                      "after a successful pull every path to the normal return stores the sort key of the new head",
+                      node=pn, witness="path keeping the previous head's key: " + pretty_path(path) if path else "")
+    for n in cfg.nodes:
+        if key_store(n) and not n.tag:
+            v = n.info.get("value")
+            names = {x.id for x in ast.walk(v) if isinstance(x, ast.Name)} if v is not None else set()
+            fields = {_self_field(x, me) for x in ast.walk(v) if isinstance(x, ast.Attribute)} if v is not None else set()
+            ctx.check(bool(names & roles.get("pull_locals", set())) or bool(fields & roles["head"]), "R01.6", m, n,
+                      "the stored sort key is computed from the head that was just pulled", node=n)
+
+
+def r01_7(ctx) -> None:
+    """Items are opaque: a value obtained from a user's iterable is only ever identity-tested
+    against a private sentinel of the library.  ``is None`` (or any constant) would give a
+    meaning to an item the stdlib counterpart passes through — None is a legal item."""
+    from .common import real_units
+    ctx.rule("R01.7", "an item of a user iterable is identity-compared only with a library-private sentinel, never "
+                      "with None / a constant (None is a legal item)")
+    for u in real_units(ctx):
+        cfg = cfg_of(u)
+        seen = set()
+        for n in cfg.nodes:
+            if n.tag or n.ast is None:
+                continue
+            for e in ast.walk(n.ast):
+                if not (isinstance(e, ast.Compare) and any(isinstance(o, (ast.Is, ast.IsNot)) for o in e.ops)) or id(e) in seen:
+                    continue
+                seen.add(id(e))
+                operands = [e.left] + list(e.comparators)
+                kinds = [{a[0] for a in ctx.vals.expr(u, o, n)} for o in operands]
+                if not any(k & {"item", "usernext"} for k in kinds):
+                    continue
+                ctx.count("item_identity_tests")
+                others = [k for k in kinds if not (k & {"item", "usernext"})]
+                ok = all(k and k <= {"sentinel", "self", "libinst"} for k in others) and len(others) >= 1
+                ctx.check(ok, "R01.7", u, e, "the item is compared by identity with a private sentinel only", node=n,
+                          witness="operand origins: " + str([sorted(k) for k in kinds]))
+
+
 def _eval_method(ctx, cls_short: str, mname: str, outcome: str, reverse: bool, a: str, b: str):
     info = ctx.pkg.cls(cls_short)
     m = info.methods.get(mname)
     if m is None:
         return None
     params = m.param_names()
-    results = Machine(cfg_of(m), _HolderOps(outcome if a == "A" else {"LT": "GT", "GT": "LT", "EQ": "EQ"}[outcome], reverse)
+    results = Machine(cfg_of(m), _HolderOps(outcome if a == "A" else {"LT": "GT", "GT": "LT", "EQ": "EQ"}[outcome], reverse,
+                                            holder_roles(ctx))
                       ).run({params[0]: "A", params[1]: "B"})
     vals = {oc.env.get("@return") for oc in results if oc.terminal.kind == "exit"}
     if len(vals) != 1:
@@ -241,7 +375,7 @@ def r01_5(ctx) -> None:
 # --------------------------------------------------------------------------- R01.2
 def r01_2(ctx) -> None:
     seen: Dict = {}
-    for short in PASS_THROUGH + TRANSFORMING + ["builtins.iter", "heapq._KeyIter.from_iters", "heapq._KeyIter.pull_head",
+    for short in PASS_THROUGH + TRANSFORMING + ["builtins.iter", "heapq._KeyIter.from_iters",
                                                "itertools.Tee.__init__", "itertools.chain.__init__"]:
         u = ctx.unit(short)
         for r in own_nodes(u.node):
@@ -324,7 +458,40 @@ def r01_3(ctx) -> None:
 
 
 # --------------------------------------------------------------------------- R01.4
+def _lockstep_order(ctx) -> None:
+    """A tool that advances several of its iterable parameters in lock-step through the
+    library's zip hands them over in parameter order (zip pulls left to right): the stdlib
+    counterpart pulls ``data`` before ``selectors``."""
+    from asl.values import mentions
+    from .common import real_units
+    for u in real_units(ctx):
+        if u.kind not in ("asyncgen", "coroutine") or u.module.short not in ("builtins", "itertools", "heapq"):
+            continue
+        params = [p.arg for p in u.params()]
+        cfg = None
+        for call in own_nodes(u.node):
+            if not (isinstance(call, ast.Call) and len(call.args) >= 2 and not any(isinstance(a, ast.Starred) for a in call.args)):
+                continue
+            r = ctx.pkg.resolve_expr_global(u.module, call.func)
+            if not (r.kind == "lib" and r.qual.rsplit(".", 1)[-1] in ("zip", "zip_longest")):
+                continue
+            cfg = cfg or cfg_of(u)
+            at = next((n for n in cfg.nodes if n.ast is not None and not n.tag and any(x is call for x in ast.walk(n.ast))), None)
+            order = []
+            for a in call.args:
+                v = ctx.vals.expr(u, a, at)
+                idx = [i for i, pn in enumerate(params) if mentions(v, f"{u.short}:{pn}")]
+                order.append(idx[0] if len(idx) == 1 else None)
+            if None in order or len(set(order)) != len(order):
+                continue
+            ctx.count("lockstep_calls")
+            ctx.check(order == sorted(order), "R01.4", u, call,
+                      "sources advanced in lock-step are handed to zip in parameter order (pulled left to right like "
+                      "the stdlib counterpart)", witness=f"parameter positions {order}", line=call.lineno)
+
+
 def r01_4(ctx) -> None:
+    _lockstep_order(ctx)
     for short in MULTI_SOURCE:
         u = ctx.unit(short)
         cfg = cfg_of(u)
